@@ -303,6 +303,14 @@ def run(chk, db, tier):
     chk.guard("R1", rule_r1_r2, db)
     chk.guard("R3", rule_r3, db)
     chk.guard("R4", rule_r4, db)
+    # prerequisite: the XML payload of Stats / Progress events is the model's encoding of those two types (decided for C13)
+    from . import c13
+    from ..report import Sub
+    from ..model import load_model
+    sub = Sub(chk, "C13", only=lambda k: k.split(".")[0] in ("Stats", "Progress"))
+    sub.rule("R1", "encoder table of the Stats and Progress payload types == model (element names, members written once from the same-named field)")
+    enc = c13.ser_impls(db, c13.SER + "SerializeContent")
+    sub.guard("R1", c13.rule_r1, db, load_model(), enc)
 
 
 META = {
